@@ -8,7 +8,7 @@ CONSTANTS
   Small = TRUE
   Avoid = FALSE
   SimK = 0
-  Acts = {"dset", "oset", "rebind", "ddel", "batch", "lset", "ldel", "slice", "lins", "inplace"}
+  Acts = {"dset", "oset", "rebind", "ddel", "batch", "lset", "ldel", "slice", "lins", "inplace", "ctor"}
 CONSTRAINT LevelBound
 VIEW view
 INVARIANT Conforms
